@@ -253,6 +253,7 @@ class C12(Property):
     design_ref = 'DESIGN.md section 10, C12'
     required_theorems = (
         'counter_sound_step', 'counter_monotone', 'counter_sound', 'consumer_never_stale', 'violated_by_clear',
+        'notified_reaches_root', 'attach_owned', 'attachStale_breaks',
     )
     level_text = ('Lean 4 theorems over the change-counter model (three classes of mutators by how they reach the counter): '
                   'every mutator call that changes the serialization strictly increases the counter, the counter is '
@@ -261,9 +262,14 @@ class C12(Property):
                   'ontology - for every history without clear(); clear() is proved to break it (known finding). The '
                   'classification of every public mutator of the ten element classes is checked against the code: a census '
                   'by introspection, and random histories of mutator calls on every reachable element (incl. updates from '
-                  'other ontologies and XML) comparing "serialization changed" with "counter moved" step by step.')
-    level_note = ('Proof is about the abstract counter model; which class a mutator belongs to and that it notifies the owning '
-                  'ontology is established by correspondence only. Ontology.clear() resets the counter (pinned by the SDK test '
+                  'other ontologies and XML) comparing "serialization changed" with "counter moved" step by step. Who is told: '
+                  'over a model of the back references from every element to what holds it, a notification from any element an '
+                  'ontology holds, at any depth, ends at that ontology when the references are sound (notified_reaches_root); '
+                  'creating or adopting-with-re-pointing keeps them sound (attach_owned), adoption by bare reference does not '
+                  '(attachStale_breaks); the references of the real objects are audited after every call of every history.')
+    level_note = ('Proof is about the abstract counter model and the model of back references; which class a mutator belongs to '
+                  'is established by correspondence only; the back references are private attributes (when they cannot be read '
+                  'the audit judges nothing). Ontology.clear() resets the counter (pinned by the SDK test '
                   'suite): recorded as a known finding, not repaired.')
     technique = 'Lean 4 proof (counter invariant over mutator histories, consumer refinement) + mutator census and differential correspondence'
     parallel = True
@@ -369,8 +375,10 @@ class C12(Property):
             stale = verdicts(validator, order) != verdicts(EventValidator(o), order)
             if m == 'clear' or any(x['method'] == 'clear' for x in steps):
                 stale = False   # after clear() the counter is unreliable: covered by the known finding
+            from vf import ownership
             steps.append({'target': label, 'method': m, 'kind': kind, 'raised': err, 'changed': before != after,
-                          'moved': v1 > v0, 'decreased': v1 < v0, 'store': after, 'stale': stale})
+                          'moved': v1 > v0, 'decreased': v1 < v0, 'store': after, 'stale': stale,
+                          'misowned': ownership.audit(o) or []})
         return steps
 
     def observe(self, case):
@@ -379,7 +387,7 @@ class C12(Property):
         steps = self.history(case)
         # over-notification (counter moves although the serialization did not change, e.g. an attribute
         # that is not serialized for this kind of element) is allowed by the property
-        return {'steps': [[s['moved'] or not s['changed'], s['decreased'], s['stale']] for s in steps],
+        return {'steps': [[s['moved'] or not s['changed'], s['decreased'], s['stale'], bool(s['misowned'])] for s in steps],
                 'n_changed': sum(1 for s in steps if s['changed'])}
 
     def requests(self, case):
@@ -394,7 +402,8 @@ class C12(Property):
         if case['kind'] == 'census':
             return {'unclassified': []}
         steps = self.history(case)
-        return {'steps': [[m['moved'] or not s['changed'], m['decreased'], False] for m, s in zip(replies[0]['steps'], steps)],
+        # (the model's operations keep the back references sound: attach_owned)
+        return {'steps': [[m['moved'] or not s['changed'], m['decreased'], False, False] for m, s in zip(replies[0]['steps'], steps)],
                 'n_changed': sum(1 for s in steps if s['changed'])}
 
     def flags_hit(self, case, replies):
@@ -415,6 +424,9 @@ class C12(Property):
                     i, s['target'].split(':')[0], s['method'], s['target'], ' (it decreased)' if s['decreased'] else ''))
             if s['decreased']:
                 return 'call %d, %s on %s decreased the change counter' % (i, s['method'], s['target'])
+            if s['misowned']:
+                return ('after call %d (%s on %s) the ontology holds elements that refer back to another object than the one that holds '
+                        'them, so that their changes are reported elsewhere: %s' % (i, s['method'], s['target'], ', '.join(s['misowned'][:4])))
             if s['stale']:
                 return ('after call %d (%s on %s) a long-lived EventValidator gives another verdict than a fresh one: '
                         'it acts on a stale ontology' % (i, s['method'], s['target']))
